@@ -174,7 +174,7 @@ class Exec(ExprMixin, CallMixin):
         if fi.is_generator:
             yt = parse_type(contract.yields or "list[int]")
             st.ghost["yield"] = default_value(yt)
-        for r in contract.requires if not contract.start_at else []:
+        for r in contract.requires if not (contract.start_at or contract.body_of_loop is not None) else []:
             st.assume(self.eval_spec(r, st, st.locals, st.old))
         for r in contract.entry_lemmas:
             st.assume(self.eval_spec(r, st, st.locals, st.old))
@@ -193,7 +193,23 @@ class Exec(ExprMixin, CallMixin):
             st.old = st.copy()
             for r in contract.requires:
                 st.assume(self.eval_spec(r, st, st.locals, st.old))
+        if contract.body_of_loop is not None:
+            loops = [n for n in self._loops_in_order(fi.node) if not isinstance(n, tuple)]
+            if contract.body_of_loop >= len(loops):
+                raise Unsupported(f"loop {contract.body_of_loop} not found in {fi.qualname}")
+            body = loops[contract.body_of_loop].body
+            self.used_anchors.add("body_of_loop")
+            for nm, ts_ in contract.locals.items():
+                v = from_consts(parse_type(ts_), nm)
+                self.assume_wellformed(st, v)
+                st.locals[nm] = v
+            st.old = st.copy()
+            for r in contract.requires:
+                st.assume(self.eval_spec(r, st, st.locals, st.old))
         outs = self.exec_block(body, st)
+        if contract.body_of_loop is not None:
+            # `continue` ends the iteration normally
+            outs = [(s_, Outcome("return", value=None, line=o_.line) if o_.kind in ("continue", "normal") else o_) for s_, o_ in outs]
         self.cover = {"exits": 0, "reachable": 0, "unknown": 0}
         for s2, o in outs:
             self.check_exit(s2, o, fi, contract)
@@ -401,7 +417,7 @@ class Exec(ExprMixin, CallMixin):
 
     def lemmas_at(self, s, st, before=False):
         c = self.cur[1]
-        if (not c.lemmas and not c.ghost_updates) or self.inline_depth:
+        if (not c.lemmas and not c.ghost_updates and not c.cuts) or self.inline_depth:
             return
         text = ast.unparse(s).split("\n")[0]
         for anchor, exprs in c.lemmas.items():
@@ -412,6 +428,13 @@ class Exec(ExprMixin, CallMixin):
                 for e in exprs:
                     st.assume(self.eval_spec(e, st, self.spec_locals(st), st.old))
         if not before:
+            for anchor, exprs in c.cuts.items():
+                if anchor in text:
+                    self.used_anchors.add(anchor)
+                    for i_, e in enumerate(exprs):
+                        g = self.eval_spec(e, st, self.spec_locals(st), st.old)
+                        self.oblige(st, g, f"cut[{anchor[:30]}][{i_}]@{s.lineno}", kind="cut", line=s.lineno)
+                        st.assume(g)
             for anchor, ups in c.ghost_updates.items():
                 if anchor in text:
                     self.used_anchors.add(anchor)
